@@ -4,5 +4,6 @@ CONSTANTS
   MaxAttrs = 3
   MaxRows = 2
   Depth = 0
+  Fork = FALSE
 INVARIANTS TypeOK Laws
 CHECK_DEADLOCK FALSE
